@@ -34,6 +34,23 @@ class Module(CallableModel):
         super().__init__(id_)
         self._module = module
         self.x = Container(None, parameters.values())
+        # where the torch module keeps the tensor of each parameter
+        self._bindings = [
+            (parameter, submodule, name)
+            for parameter in parameters.values()
+            if isinstance(parameter, AbstractParameter)
+            for submodule in module.modules()
+            for name, tensor in submodule._parameters.items()
+            if tensor is parameter.tensor
+        ]
+
+    def handle_model_changed(self, model, obj, index) -> None:
+        # a torch module keeps the tensor objects it was built with: when a
+        # parameter has been assigned a new tensor hand it over to the module
+        for parameter, submodule, name in self._bindings:
+            if submodule._parameters[name] is not parameter.tensor:
+                submodule._parameters[name] = parameter.tensor
+        super().handle_model_changed(model, obj, index)
 
     @property
     def module(self) -> nn.Module:
